@@ -147,6 +147,19 @@ func ruleAdapterStatus(c *Ctx, rule string) {
 			}
 			return false
 		}
+		// a status the sink has no metric for (a parameter no call uses) obliges nothing
+		anyUse := false
+		for _, b := range f.Blocks {
+			for _, ins := range b.Instrs {
+				if uses(ins) {
+					anyUse = true
+				}
+			}
+		}
+		if !anyUse {
+			c.CheckAt(rule, short(f)+":status-reported-on-every-path", f.Blocks[0].Instrs[0], true, "the status is not exported by this method at all||")
+			continue
+		}
 		ok, bad := eng.MustPass(eng.Point{B: f.Blocks[0], Idx: 0}, uses)
 		at := ssa.Instruction(f.Blocks[0].Instrs[0])
 		if bad != nil {
